@@ -98,18 +98,21 @@ static int64_t c07_gen_arg(Dec& d, const std::string& tok)
   int ti = itype_index(tok.c_str()); if (ti >= 0) return dec_int(d, ITYPES[ti]);
   return 0;
 }
-static Args c07_decode(Ctx&, Dec& d)
+static Args c07_decode(Ctx& ctx, Dec& d)
 {
+  // one case in four borrows the targeted generator of a property clause (planted windows, result-targeted pairs)
+  { uint64_t sel = d.u64(); static const char* borrow[] = { "C14.hypot", "C11.atan2", "C03.divff", "C03.divint", "C02.mulff", "C02.mulint", "C01.addsub", "C18.shift", "C15.floorceil", "C13.sqrtrc", "C10.rel", "C16.int" };
+    if (sel % 4 == 0) { const char* cid = borrow[(sel >> 8) % 12]; for (const Clause& c : registry()) if (!strcmp(c.id, cid) && c.decode) { Args ca = c.decode(ctx, d); int id; int64_t x, y, z; if (ce_map(cid, ca, id, x, y, z)) return { entry_key(id), x, y, z }; break; } } }
   int id = (int)d.range(0, E_COUNT - 1); const auto& sig = entry_args()[id]; Args a = { entry_key(id), 0, 0, 0 };
   for (size_t i = 0; i < sig.size() && i < 3; ++i) a[1 + i] = c07_gen_arg(d, sig[i]);
   return a;
 }
 static Reg r_c07({ "C07.entry", "C07", "rc",
-  "(entry point, arguments) over the whole inventory of cut/entries.def (every operator for every operand type in both orders and compound forms, conversions, shifts, floor/ceil, sqrt (both algorithms), hypot, sin, cos, tan, atan, atan2, asin, acos, *_angle<T>, angle_to_radians<T>, the compiled table functions): fixed_t arguments incl. +-NaN (1/5) and the band within 140000 raw of +-MAXF (1/5), integral arguments over the full type range, float/double bit patterns incl. non-finite, shift counts in [INT_MIN, 63], 32-bit degrees; monitored on the sanitized builds (GCC and Clang, -O0/-O1, both sqrt algorithms): harness-owned UBSan handlers (signed overflow, shift, division, float cast, bounds, ...), the libstdc++ assertion hook (std::array index), and signal recovery (SIGFPE/SIGSEGV/SIGILL/SIGABRT); a finding is identified by its site (kind, file, line); non-trivial = an argument that is NaN, >= 2^46 in magnitude, a negative or >= 48 shift count, degrees outside [0,360], a non-finite/out-of-range float, an integer in {0,+-1} or >= 2^31, or a table index",
-  c07_check, 24, c07_decode, nullptr });
+  "(one case in four uses the targeted generator of a property clause - planted hypot / atan2 / division windows, result-targeted pairs) (entry point, arguments) over the whole inventory of cut/entries.def (every operator for every operand type in both orders and compound forms, conversions, shifts, floor/ceil, sqrt (both algorithms), hypot, sin, cos, tan, atan, atan2, asin, acos, *_angle<T>, angle_to_radians<T>, the compiled table functions): fixed_t arguments incl. +-NaN (1/5) and the band within 140000 raw of +-MAXF (1/5), integral arguments over the full type range, float/double bit patterns incl. non-finite, shift counts in [INT_MIN, 63], 32-bit degrees; monitored on the sanitized builds (GCC and Clang, -O0/-O1, both sqrt algorithms): harness-owned UBSan handlers (signed overflow, shift, division, float cast, bounds, ...), the libstdc++ assertion hook (std::array index), and signal recovery (SIGFPE/SIGSEGV/SIGILL/SIGABRT); a finding is identified by its site (kind, file, line); non-trivial = an argument that is NaN, >= 2^46 in magnitude, a negative or >= 48 shift count, degrees outside [0,360], a non-finite/out-of-range float, an integer in {0,+-1} or >= 2^31, or a table index",
+  c07_check, 64, c07_decode, nullptr });
 static Reg r_c07_trap({ "C07.trap", "C07", "rc",
   "same generator as C07.entry, run against the optimised builds exactly as a user compiles them (no sanitizer): only traps are observable (a call that does not return: SIGFPE, SIGSEGV, SIGILL, SIGABRT)",
-  c07_check, 24, c07_decode, nullptr });
+  c07_check, 64, c07_decode, nullptr });
 
 // ================================================================ C08
 // Domain on which each function is defined (from the owning property): maximal bit length of
